@@ -439,4 +439,129 @@ def parseAcceptRaw (value : Str) : Except String (List (Str × Q)) :=
 def parseAccept (N : Neg σ Q) (value : Str) : Except String (List (Str × Q)) :=
   (parseAcceptRaw value).map (mk N)
 
+/-! ## the rest of the `Accept` API -/
+
+/-- `best_match(matches, default)` -/
+def bestMatchD (N : Neg σ κ) (self : List (Str × κ)) (offers : List Str) (default : Option Str) :
+    Option Str :=
+  match bestMatch N self offers with
+  | some r => some r
+  | none => default
+
+/-- the `best` property: the first item's value -/
+def best (self : List (Str × κ)) : Option Str := self.head?.map (·.1)
+
+/-- `values()` -/
+def values (self : List (Str × κ)) : List Str := self.map (·.1)
+
+/-- `index(key)` for a string key; `.error "ValueError"` when nothing matches -/
+def index (N : Neg σ κ) (self : List (Str × κ)) (key : Str) : Except String Nat :=
+  match find N self key with
+  | some i => .ok i
+  | none => .error "ValueError"
+
+/-- `self[key]` for a string key: `quality(key)`, the integer `0` when nothing matches -/
+def getItemStr (N : Neg σ κ) (self : List (Str × κ)) (key : Str) : κ :=
+  (quality N self key).getD N.zero
+
+/-- `self[i]` for an index; `none` = IndexError -/
+def getItemIdx (self : List (Str × κ)) (i : Nat) : Option (Str × κ) := self[i]?
+
+/-- left-pad with `'0'` to `n` characters -/
+def padZeros (n : Nat) (s : Str) : Str := List.replicate (n - s.length) '0' ++ s
+
+/-- `repr(float)` of a parsed quality, as `f"{quality}"` prints it: `0.0` for zero, else the
+shortest positional decimal `0.ddd` — Python switches to exponent notation below `1e-4`, which is
+outside this model (`none`; such a text would not even pass `_q_value_re` again). Qualities equal
+to 1 are never printed (`quality != 1`). -/
+def qRepr (q : Q) : Option Str :=
+  let n := q.norm
+  if n.num == 0 then some ['0', '.', '0']
+  else if n.scale == 0 then some ((toString n.num).toList ++ ['.', '0'])
+  else if n.scale > 4 && n.num * 10000 < 10 ^ n.scale then none
+  else some ('0' :: '.' :: padZeros n.scale (toString n.num).toList)
+
+/-- is the quality equal to 1 (`quality != 1` is false)? -/
+def Q.isOne (q : Q) : Bool := q.le Q.one && Q.one.le q
+
+/-- one element of `to_header()` -/
+def itemHeader (it : Str × Q) : Option Str :=
+  if it.2.isOne then some it.1
+  else (qRepr it.2).map fun r => it.1 ++ [';', 'q', '='] ++ r
+
+/-- `to_header()` / `__str__()`: `",".join(...)`; `none` = a quality below `1e-4` (outside the model) -/
+def toHeader (self : List (Str × Q)) : Option Str :=
+  (self.mapM itemHeader).map fun parts => [','].intercalate parts
+
+/-! ### `MIMEAccept` convenience flags -/
+
+def mtHtml : Str := "text/html".toList
+def mtXhtml : Str := "application/xhtml+xml".toList
+def mtXml : Str := "application/xml".toList
+def mtJson : Str := "application/json".toList
+
+/-- `accept_xhtml` -/
+def acceptXhtml (self : List (Str × Q)) : Bool :=
+  contains mimeNeg self mtXhtml || contains mimeNeg self mtXml
+
+/-- `accept_html` -/
+def acceptHtml (self : List (Str × Q)) : Bool := contains mimeNeg self mtHtml || acceptXhtml self
+
+/-- `accept_json` -/
+def acceptJson (self : List (Str × Q)) : Bool := contains mimeNeg self mtJson
+
+/-! ### the `Request` attributes -/
+
+/-- `Request.accept_mimetypes / accept_charsets / accept_encodings / accept_languages` -/
+inductive AcceptAttr where
+  | mimetypes
+  | charsets
+  | encodings
+  | languages
+deriving Repr, DecidableEq
+
+/-- the four Accept classes -/
+inductive AcceptCls where
+  | accept
+  | mime
+  | lang
+  | charset
+deriving Repr, DecidableEq
+
+/-- attribute name, request header it reads, class it builds -/
+def AcceptAttr.spec : AcceptAttr → Str × Str × AcceptCls
+  | .mimetypes => ("accept_mimetypes".toList, "Accept".toList, .mime)
+  | .charsets => ("accept_charsets".toList, "Accept-Charset".toList, .charset)
+  | .encodings => ("accept_encodings".toList, "Accept-Encoding".toList, .accept)
+  | .languages => ("accept_languages".toList, "Accept-Language".toList, .lang)
+
+def AcceptAttr.all : List AcceptAttr := [.mimetypes, .charsets, .encodings, .languages]
+
+/-- the negotiation structure of a class (`aliases`: the opaque codec alias table) -/
+def AcceptCls.neg (aliases : List (Str × Str)) : AcceptCls → Neg (List Bool) Q
+  | .accept => acceptNeg
+  | .mime => mimeNeg
+  | .lang => langNeg
+  | .charset => charsetNeg aliases
+
+/-- `headers.get(name)` on a list of `(name, value)` pairs: first value, name compared
+case-insensitively (ASCII) -/
+def headersGet (headers : List (Str × Str)) (name : Str) : Option Str :=
+  (headers.find? fun h => lowerA h.1 == lowerA name).map (·.2)
+
+/-- the attribute: `parse_accept_header(self.headers.get(<header>), <class>)`; an absent header
+gives the empty object (`cls(None)`) -/
+def requestAccept (aliases : List (Str × Str)) (attr : AcceptAttr) (headers : List (Str × Str)) :
+    Except String (List (Str × Q)) :=
+  match headersGet headers attr.spec.2.1 with
+  | none => .ok []
+  | some v => parseAccept (attr.spec.2.2.neg aliases) v
+
+/-- `best_match` of the class (only `LanguageAccept` overrides it) -/
+def clsBestMatch (aliases : List (Str × Str)) (c : AcceptCls) (self : List (Str × Q)) (offers : List Str)
+    (default : Option Str) : Option Str :=
+  match c with
+  | .lang => (match langBestMatch self offers with | some r => some r | none => default)
+  | c => bestMatchD (c.neg aliases) self offers default
+
 end Wz.Accept
